@@ -230,7 +230,7 @@ def run(tier, seed, replay=None):
                 "(target schema, setting).")
     rep.assumptions = ["::vrt::support::Repl stands in for user-supplied replacement/conversion types",
                        "a type is 'unaffected' by replace/convert if it does not (transitively) contain the target"]
-    n = 10 if tier == "quick" else 200
+    n = 16 if tier == "quick" else 250
     kinds = ["replace", "convert", "patch", "derive", "map", "builder"]
     cases, meta = [], {}
     for i in range(n):
